@@ -12,6 +12,8 @@ mod record;
 mod recordlog;
 mod rolling;
 #[cfg(mrecordlog_verif)]
+pub mod verif_codec;
+#[cfg(mrecordlog_verif)]
 pub mod verif_hooks;
 
 pub use mem::{QueueSummary, QueuesSummary};
